@@ -296,9 +296,10 @@ class ConvolvedFluxes(object):
         # Set wavelength
         c.central_wavelength = self.central_wavelength
 
-        # Save requested apertures (a copy, so that resetting the ones beyond
-        # the table below does not change the array of the caller)
-        c.apertures = apertures.copy()
+        # Save requested apertures (a double-precision copy, so that resetting
+        # the ones beyond the table below neither changes the array of the
+        # caller nor rounds the largest tabulated aperture)
+        c.apertures = apertures.astype(float)
 
         # Transfer model names
         c.model_names = self.model_names
